@@ -434,8 +434,17 @@ func ruleHeaderLoopExits(c *chk.Ctx) {
 		}
 		// trimmed(v): v is the line with its terminator trimmed off — a Trim call, or the line
 		// helper's result, which on every successful return is one
+		// (only the line terminator may be trimmed: a line of blanks is not the blank line, and a
+		// field name does not start with a blank)
+		isTermTrim := func(call *ssa.Call) bool {
+			if !ir.IsCallTo(&call.Call, "strings.TrimRight", "strings.TrimSuffix") || len(call.Call.Args) != 2 {
+				return false
+			}
+			cut, isK := constString(call.Call.Args[1])
+			return isK && cut != "" && strings.Trim(cut, "\r\n") == ""
+		}
 		trimmed := func(v ssa.Value) bool {
-			if call, ok := v.(*ssa.Call); ok && ir.IsCallTo(&call.Call, "strings.TrimRight", "strings.TrimSpace", "strings.TrimSuffix") {
+			if call, ok := v.(*ssa.Call); ok && isTermTrim(call) {
 				return true
 			}
 			if lineHelper == nil || !(ir.IsExtractOf(v, rd, 0) || v == ssa.Value(rd)) {
@@ -449,7 +458,7 @@ func ruleHeaderLoopExits(c *chk.Ctx) {
 				}
 				some = true
 				call, ok := ir.ReturnResult(r, 0).(*ssa.Call)
-				if !ok || !ir.IsCallTo(&call.Call, "strings.TrimRight", "strings.TrimSpace", "strings.TrimSuffix") {
+				if !ok || !isTermTrim(call) {
 					all = false
 				}
 			}
